@@ -139,6 +139,11 @@ func runNetSuite(seed uint64, n int, out *Out, stats *Stats) {
 				for j := 0; j < 1+r.Intn(5); j++ {
 					ts = append(ts, pool[r.Intn(len(pool))])
 				}
+				// a peer that has earned a score is often announced again by somebody else
+				if scored := scoredKeys(known); len(scored) > 0 && r.Chance(1, 2) {
+					ts = append(ts, scored[r.Intn(len(scored))])
+					stats.Count("add-targets/with an already scored target")
+				}
 				nb.AddTargets(ts)
 				var a []string
 				for _, t := range ts {
@@ -153,6 +158,9 @@ func runNetSuite(seed uint64, n int, out *Out, stats *Stats) {
 				stats.Count("add-targets")
 			case k < 7:
 				t := pool[r.Intn(len(pool))]
+				if ks := sortedKeys(known); len(ks) > 0 && r.Chance(2, 3) {
+					t = ks[r.Intn(len(ks))] // usually a peer the node already knows
+				}
 				nb.Incentive(t)
 				known[t]++
 				ops = append(ops, sx("inc", atom(t)))
@@ -328,4 +336,23 @@ func monitorNet(out *Out, id, host string, max int, src map[string]int, splitTab
 			}
 		}
 	}
+}
+
+func sortedKeys(m map[string]int) []string {
+	var ks []string
+	for k := range m {
+		ks = append(ks, k)
+	}
+	sort.Strings(ks)
+	return ks
+}
+
+func scoredKeys(m map[string]int) []string {
+	var ks []string
+	for _, k := range sortedKeys(m) {
+		if m[k] > 0 {
+			ks = append(ks, k)
+		}
+	}
+	return ks
 }
